@@ -303,8 +303,13 @@ def r_order(c):
     # declaration order (rule stated in the code: "must traverse in the order of
     # callee's args to generate the correct assignees order")
     lc = m.func(CGM + ".map_loopy_call")
+    mk = find(lc, f"make_assignment(tuple($as), var({lc.args.args[1].arg}.entrypoint)(*$ps), "
+                  "depends_on=$$d, id=$$i)")
+    if len(mk) != 1:
+        raise AnalysisError("anchor vanished: make_assignment(...) in map_loopy_call")
+    apps = (mk[0]["$as"] + ".append", mk[0]["$ps"] + ".append")
     loops = [l for l in ast.walk(lc) if isinstance(l, ast.For)
-             and any("assignees.append" in ast.unparse(s_) or "params.append" in ast.unparse(s_)
+             and any(isinstance(s_, ast.Call) and ast.unparse(s_.func) in apps
                      for s_ in ast.walk(l))]
     ck = find(lc, f"$k = {lc.args.args[1].arg}.translation_unit[{lc.args.args[1].arg}.entrypoint]")
     c.check(len(loops) == 1 and len(ck) == 1
